@@ -6,20 +6,22 @@
               identifiers of the workspace)
      spec   : what Spec/LuaScope.v demands for the occurrence under the cursor ("-" = no demand)
      classes: refuted classes true of that query ("-" = none)
-   Everything is recomputed from the file BYTES. *)
+   Everything is recomputed from the file BYTES.
+   The WIDE functions (Model/ResolveWide.v, Spec/LuaScopeWide.v) are used throughout: they coincide with the narrow ones
+   on the narrow fragment (Proofs/WideNarrow.v), so the narrow legs are unaffected. *)
 
 type pf = { fname : string; fnb : n list; bytes : n list; len : int; parsed : bool; frag : bool; tok : bool;
-            fi : fileinfo; so : socc list }
+            fi : fileinfo; so : socc list; strs : (n list * loc) list }
 
 let dummy_fi = analyse (Block ([], None, zero_loc))
 
 let prep (name, bs) : pf =
   oracle_used := false;
   let base = { fname = name; fnb = bytes_of_string name; bytes = bs; len = List.length bs; parsed = false;
-               frag = false; tok = text_ok bs; fi = dummy_fi; so = [] } in
+               frag = false; tok = text_ok_wide bs; fi = dummy_fi; so = []; strs = [] } in
   match parse_bytes gbk_oracle classify_tok bs with
   | Ok (PR (blk, [], [])) when not !oracle_used ->
-    { base with parsed = true; frag = in_fragment blk; fi = analyse blk; so = bind_file blk }
+    { base with parsed = true; frag = in_wide blk; fi = analyse_wide blk; so = bind_file_wide blk; strs = strs_block blk }
   | _ -> base
 
 let zi = int_of_z
@@ -33,12 +35,16 @@ let uniq l = List.sort_uniq compare l
 type ctx = { files : pf array; mw : mws; sw : sws }
 
 let mk_ctx (c : srv_case) : ctx =
-  let files = Array.of_list (List.map prep c.files) in
+  let files = List.map prep c.files in
+  (* the member re-reading of getVarCommonFuncParam compares key positions without the file name (a global table's
+     members come from every file): the string nodes of the whole workspace count *)
+  let allstrs = List.concat_map (fun p -> p.strs) files in
+  let files = Array.of_list (List.map (fun p -> { p with strs = allstrs }) files) in
   let fl = Array.to_list files in
   { files; mw = List.map (fun p -> (p.fnb, p.fi)) fl; sw = List.map (fun p -> (p.fnb, p.so)) fl }
 
 (* the identifier a position request is about *)
-type cur = CName of n list | CEmpty (* the server answers nothing *) | CSkip of string
+type cur = CName of (bool * n list) (* written `_G.name`, name *) | CEmpty (* the server answers nothing *) | CSkip of string
 
 let cursor (p : pf) ~(docend_empty : bool) line col : cur * bool (* doc end *) =
   if not p.parsed then (CSkip "PARSE", false)
@@ -50,10 +56,14 @@ let cursor (p : pf) ~(docend_empty : bool) line col : cur * bool (* doc end *) =
       let o = int_of_n off in
       if p.len = 0 then (CEmpty, true)
       else if o >= p.len && docend_empty then (CEmpty, true)
-      else (match cut_name p.bytes off with
-          | CutName s -> (CName s, o >= p.len)
-          | CutInvalid -> (CEmpty, o >= p.len)
-          | CutUnsupported -> (CSkip "CUT", false))
+      else (match cut_name_wide p.bytes off with
+          | WName s ->
+            (* a same-named string key next to the cursor: the server re-reads the identifier as a table member *)
+            if near_str p.strs s (z_of_int (line + 1)) (z_of_int col) then (CSkip "KEY", false)
+            else (CName (false, s), o >= p.len)
+          | WGName s -> (CName (true, s), o >= p.len)
+          | WInvalid -> (CEmpty, o >= p.len)
+          | WUnsupported -> (CSkip "CUT", false))
 
 let z1 line = z_of_int (line + 1)
 
@@ -93,29 +103,36 @@ let cls_s l = match uniq l with [] -> "-" | l -> String.concat "," l
 let find_file (cx : ctx) (f : n list) : pf option =
   let r = ref None in Array.iter (fun p -> if p.fnb = f then r := Some p) cx.files; !r
 
-let name_at (cx : ctx) ~docend_empty (f : n list) (line1 : z) (col : z) : (pf * n list) option =
+(* an answer that depends on the order-dependent workspace table (C09): the C12 relation makes no demand there *)
+exception Ambig
+let name_at (cx : ctx) ~docend_empty (f : n list) (line1 : z) (col : z) : (pf * (bool * n list)) option =
   match find_file cx f with
   | None -> None
   | Some p -> (match fst (cursor p ~docend_empty (zi line1 - 1) (zi col)) with
       | CName s -> Some (p, s)
       | _ -> None)
 
-(* an answer that depends on the order-dependent workspace table (C09): the C12 relation makes no demand there *)
-exception Ambig
+(* a position the model makes no prediction for (SKIP-...): no demand either *)
+let skipped_at (cx : ctx) ~docend_empty (f : n list) (line1 : z) (col : z) : bool =
+  match find_file cx f with
+  | None -> false
+  | Some p -> (match fst (cursor p ~docend_empty (zi line1 - 1) (zi col)) with CSkip _ -> true | _ -> false)
+let name_at cx ~docend_empty f line1 col =
+  if skipped_at cx ~docend_empty f line1 col then raise Ambig else name_at cx ~docend_empty f line1 col
 let m_define cx f line1 col = match name_at cx ~docend_empty:true f line1 col with
-  | Some (p, s) -> (match define_at cx.mw p.fnb p.fi s line1 col with Some l -> l | None -> raise Ambig)
+  | Some (p, (g, s)) -> (match define_at_wide g cx.mw p.fnb p.fi s line1 col with Some l -> l | None -> raise Ambig)
   | None -> []
 let m_refs mode cx f line1 col = match name_at cx ~docend_empty:true f line1 col with
-  | Some (p, s) -> (match references_at mode cx.mw p.fnb p.fi s line1 col with Some l -> l | None -> raise Ambig)
+  | Some (p, (g, s)) -> (match references_at_wide mode g cx.mw p.fnb p.fi s line1 col with Some l -> l | None -> raise Ambig)
   | None -> []
 let m_highlight cx f line1 col = List.map snd (m_refs MHighlight cx f line1 col)
 let m_hover_local cx f line1 col = match name_at cx ~docend_empty:false f line1 col with
-  | Some (p, s) -> (match hover_at cx.mw p.fnb p.fi s line1 col with HLocal -> true | _ -> false)
+  | Some (p, (g, s)) -> (match hover_at_wide g cx.mw p.fnb p.fi s line1 col with HLocal -> true | _ -> false)
   | None -> false
 
 (* one query step -> (model, spec, classes) *)
 let eval_step (leg : string) (cx : ctx) (st : srv_step) : (string * string * string) option =
-  let pos_query op i line col (k : pf -> n list -> socc option -> bool -> string * string * string list) =
+  let pos_query op i line col (k : pf -> (bool * n list) -> socc option -> bool -> string * string * string list) =
     let p = cx.files.(i) in
     let docend_empty = (op <> "hover") in
     let (c, docend) = cursor p ~docend_empty line col in
@@ -125,15 +142,15 @@ let eval_step (leg : string) (cx : ctx) (st : srv_step) : (string * string * str
     | CEmpty ->
       let empty = (match op with "hover" -> "hover=none" | _ -> op ^ "=[]") in
       (* the property still demands an answer when an occurrence is under the cursor *)
-      let (_, s, cl) = (match o with Some _ -> k p [] o true | None -> (empty, "-", [])) in
+      let (_, s, cl) = (match o with Some _ -> k p (false, []) o true | None -> (empty, "-", [])) in
       Some (empty, s, cls_s ((if docend then ["doc_end"] else []) @ cl))
     | CName s ->
       let (m, sp, cl) = k p s o false in
       Some (m, sp, cls_s ((if docend then ["doc_end"] else []) @ cl)) in
   match st with
   | StDefine (i, line, col) ->
-    pos_query "define" i line col (fun p s o empty ->
-        let ans = if empty then Some [] else define_at cx.mw p.fnb p.fi s (z1 line) (z_of_int col) in
+    pos_query "define" i line col (fun p (g, s) o empty ->
+        let ans = if empty then Some [] else define_at_wide g cx.mw p.fnb p.fi s (z1 line) (z_of_int col) in
         match ans with
         | None -> ("define=SKIP-AMBIG", "-", [])
         | Some l ->
@@ -157,8 +174,8 @@ let eval_step (leg : string) (cx : ctx) (st : srv_step) : (string * string * str
        | "refs" -> "refs=" ^ locs_s l
        | "highlight" -> "highlight=" ^ list_s (List.map (fun x -> range_s (snd x)) l)
        | _ -> "rename=" ^ list_s (List.map (fun x -> floc_s x ^ "=>" ^ nn) l)) in
-    pos_query op i line col (fun p s o empty ->
-        let ans = if empty then Some [] else references_at mode cx.mw p.fnb p.fi s (z1 line) (z_of_int col) in
+    pos_query op i line col (fun p (g, s) o empty ->
+        let ans = if empty then Some [] else references_at_wide mode g cx.mw p.fnb p.fi s (z1 line) (z_of_int col) in
         match ans with
         | None -> (op ^ "=SKIP-AMBIG", "-", [])
         | Some l ->
@@ -185,9 +202,9 @@ let eval_step (leg : string) (cx : ctx) (st : srv_step) : (string * string * str
           let sp = (try Lazy.force sp with Ambig -> "-") in
           (m, sp, cursor_classes o @ name_classes cx o @ (if c12 then any_name_classes cx o else [])))
   | StHover (i, line, col) ->
-    pos_query "hover" i line col (fun p s o empty ->
+    pos_query "hover" i line col (fun p (g, s) o empty ->
         if empty then ("hover=none", (match o with Some o -> (if spec_hover_local o then "hover=L:" else "hover=G:") ^ string_of_bytes o.s_name | None -> "-"), cursor_classes o)
-        else match hover_at cx.mw p.fnb p.fi s (z1 line) (z_of_int col) with
+        else match hover_at_wide g cx.mw p.fnb p.fi s (z1 line) (z_of_int col) with
           | HSkip -> ("hover=SKIP-AMBIG", "-", [])
           | h ->
             let m = (match h with HLocal -> "hover=L:" | _ -> "hover=G:") ^ string_of_bytes s in
@@ -208,18 +225,21 @@ let eval_step (leg : string) (cx : ctx) (st : srv_step) : (string * string * str
     else (match offset_of p.bytes (n_of_int line) (n_of_int col) N0 with
         | None -> Some ("complete=SKIP-POS", "-", "-")
         | Some off ->
-          (match complete_prefix p.bytes off with
+          (match complete_prefix_wide p.bytes off with
            | CutUnsupported -> Some ("complete=SKIP-CUT", "-", "-")
            | CutInvalid -> Some ("complete=[]", "-", "-")
            | CutName pre ->
-             let labels = complete_at cx.mw p.fi pre (z1 line) (z_of_int col) in
+             (* `self` never occurs in the text of a wide program (frag_name); the synthetic parameter of
+                `function t:m()` is not a name of the workspace (the implementation side keeps workspace names only) *)
+             let not_self n = (string_of_bytes n <> "self" && string_of_bytes n <> "_G" (* a keyword for the server: offered everywhere; dropped on both sides *)) in
+             let labels = List.filter not_self (complete_at_wide cx.mw p.fi pre (z1 line) (z_of_int col)) in
              let m = "complete=[" ^ String.concat "," (uniq (List.map string_of_bytes labels)) ^ "]" in
              let o = occ_at p.so (z1 line) (z_of_int col) in
              let sp = (match o with
                  | None -> "-"
                  | Some _ when leg = "c14.corr" -> "-"
                  | Some o ->
-                   let visible = env_names o.s_env [] in
+                   let visible = List.filter not_self (env_names o.s_env []) in
                    if complete_ok cx.sw p.fnb visible pre (z1 line) (z_of_int col) labels then m
                    else begin
                      let must = List.filter (fun n -> starts_with pre n) (visible @ global_names cx.sw) in
